@@ -288,7 +288,8 @@ ADDENDA = {
  'C10': ' The seat thread that sends these streams is also covered as TRANSLATED code (see C09: Generated/PyCoreThreads.lean, Translated/ThreadsSeat*.lean). '
         'Refused actions (an illegal call, a card not held, a card already played) are exercised too: nobody may be told about an action that was not accepted.',
  'C13': ' Since session 5 one abort path IS covered on translated code: Translated/ThreadsMainF.lean main_bidding_unparseable_raises — an unparseable plain-ASCII call makes the '
-        'translated bidding_phase raise at the parse_bid statement, before take_bid and before any relay (parse_bid_refuses / parse_card_refuses: the translated parsers raise '
+        'translated bidding_phase raise at the parse_bid statement, before take_bid and before any relay, and ThreadsMainH.lean main_playing_unparseable_raises — after any number of '
+        'completed tricks and accepted cards an unparseable card text makes the translated playing_phase raise before anything about that card is relayed (parse_bid_refuses / parse_card_refuses: the translated parsers raise '
         'exactly when the model\'s refuse). The operator\'s interrupt is also delivered as a REAL signal (harness/sigint_smoke.py: Server.run in the main thread of a child process over loopback '
         'TCP, SIGINT while a later board is under way). The translated main thread (Generated/PyCoreThreads.lean) covers the normal path only: MiniPy '
         'drops the state at an exception, so the abort path stays with the hand-written abort model and the fault enumeration.',
